@@ -6,7 +6,7 @@ SEED=1; TIER=quick
 while getopts s:t: o; do case $o in s) SEED=$OPTARG;; t) TIER=$OPTARG;; esac; done; shift $((OPTIND-1))
 S=/tmp/vsnap.$$; R=/tmp/cleanrepo.$$
 rsync -a --exclude .work --exclude .git /verif/ $S/ && git -C /repo worktree add --detach $R HEAD >/dev/null 2>&1 || exit 2
-trap 'rm -rf $S; git -C /repo worktree remove --force $R; git -C /repo worktree prune' EXIT
+trap '[ -n "$KEEP" ] && cp -r $S/replays /tmp/keep_replays; rm -rf $S; git -C /repo worktree remove --force $R; git -C /repo worktree prune' EXIT
 for p in "$@"; do
   VERIF_REPO=$R VERIF_SEED=$SEED $S/run.sh $p $TIER 2>&1 | grep -E "tier=|^VIOLATION|rule:|INCONCLUSIVE|KNOWN" | cut -c1-400 | sort | uniq -c | sort -rn | head -8
 done
